@@ -174,3 +174,42 @@ def register(mut):
         '''                    auto arg = co_yield g.value();
                     static auto first = arg;
                     gcb->charge(first);''', ['C14'])
+    mut('signal-state-no-notify', 'signal.h',
+        '''        ~state() {
+            _cur_val = nullptr;
+            notify_awaiters();
+        }''',
+        '''        ~state() {
+            _cur_val = nullptr;
+        }''', ['C15'])
+    mut('signal-callback-no-resubscribe', 'signal.h',
+        '''                    if (_fn(this->await_resume())) {
+                        this->subscribe(st->_chain);
+                    } else {''',
+        '''                    if (_fn(this->await_resume()) && false) {
+                        this->subscribe(st->_chain);
+                    } else {''', ['C15'])
+    mut('signal-lvalue-not-stored', 'signal.h',
+        '''        suspend_point<void> operator()(lvalue_param val) const {
+            _state->_cur_val = &val;''',
+        '''        suspend_point<void> operator()(lvalue_param val) const {
+            if (!_state->_cur_val) _state->_cur_val = &val;''', ['C15'])
+    mut('chain-drops-tail', 'awaiter.h',
+        '''    static suspend_point<void> resume_chain_lk(awaiter *chain) {
+        suspend_point<void> ret;
+        while (chain) {''',
+        '''    static suspend_point<void> resume_chain_lk(awaiter *chain) {
+        suspend_point<void> ret;
+        int n = 0;
+        while (chain && ++n < 4) {''', ['C15', 'C02'])
+    mut('signal-disconnected-emitter-suspends', 'signal.h',
+        '''                this->subscribe(s->_chain);
+                return true;
+            }  else {
+                return false;
+            }''',
+        '''                this->subscribe(s->_chain);
+                return true;
+            }  else {
+                return true;
+            }''', ['C15'])
